@@ -28,8 +28,30 @@ impl Loader {
     }
     /// load `file` with `args` into the (clean) cpu; Err(panic message) if the loader panics
     pub fn load(&mut self, file: &[u8], args: &str) -> Result<(), String> {
-        std::fs::write(&self.path, file).map_err(|e| format!("cannot write scratch file: {}", e))?;
-        let path = self.path.to_string_lossy().to_string();
+        self.load_named(file, args, None)
+    }
+    /// `name`: the file name on disk (inside a directory of this loader's own)
+    pub fn load_named(&mut self, file: &[u8], args: &str, name: Option<&str>) -> Result<(), String> {
+        let path_buf = match name {
+            Some(n) => {
+                let d = self.path.with_extension("d");
+                let _ = std::fs::create_dir_all(&d);
+                d.join(n)
+            }
+            None => self.path.clone(),
+        };
+        std::fs::write(&path_buf, file).map_err(|e| format!("cannot write scratch file: {}", e))?;
+        let path = path_buf.to_string_lossy().to_string();
+        let cleanup = name.map(|_| path_buf.clone());
+        struct Rm(Option<PathBuf>);
+        impl Drop for Rm {
+            fn drop(&mut self) {
+                if let Some(p) = &self.0 {
+                    let _ = std::fs::remove_file(p);
+                }
+            }
+        }
+        let _rm = Rm(cleanup);
         let cpu = &mut self.cpu;
         let args = args.to_string();
         guarded(move || crate::elf::load(path, cpu, args)).map_err(|p| format!("loader panicked: {}", p))
@@ -66,6 +88,7 @@ impl Loader {
 impl Drop for Loader {
     fn drop(&mut self) {
         let _ = std::fs::remove_file(&self.path);
+        let _ = std::fs::remove_dir_all(self.path.with_extension("d"));
         if let Some(d) = self.path.parent() {
             let _ = std::fs::remove_dir(d);
         }
@@ -76,7 +99,7 @@ const BASE_OFF: usize = (BASE - DRAM_LO) as usize;
 
 /// C11's oracle. Ok(classes) / Err(detail)
 pub fn check_c11(ld: &mut Loader, spec: &ElfSpec) -> Result<(), String> {
-    let r = ld.load(&spec.file, &spec.args);
+    let r = ld.load_named(&spec.file, &spec.args, spec.file_name.as_deref());
     let end = spec.image_end() as usize;
     let hi = (BASE_OFF + end + 0x10000 + 0x4000 + spec.args.len() * 6 + 0x400).min(0x200000);
     let res = (|| {
@@ -133,7 +156,7 @@ fn be32_at(d: &[u8], off: usize) -> u32 {
 
 /// C12's oracle, computed from the statement. Ok(()) / Err(detail)
 pub fn check_c12(ld: &mut Loader, spec: &ElfSpec) -> Result<(), String> {
-    let r = ld.load(&spec.file, &spec.args);
+    let r = ld.load_named(&spec.file, &spec.args, spec.file_name.as_deref());
     let end = spec.image_end();
     let hi = (BASE_OFF + end as usize + 0x10000 + 0x4000 + spec.args.len() * 6 + 0x400).min(0x200000);
     let res = (|| {
@@ -293,10 +316,11 @@ pub fn run_elf(ctx: &Ctx, property: &'static str) -> i32 {
         let (Some(file), Some(args)) = (case.get("file").and_then(|f| f.as_str()).and_then(crate::engine::stepcase::unhex), case.get("args").and_then(|a| a.as_str())) else { return 2 };
         // rebuild a minimal spec from the file is not possible in general: the replay re-parses the file
         // with the harness's own ELF reader
-        let Some(spec) = spec_from_file(&file, args) else {
+        let Some(mut spec) = spec_from_file(&file, args) else {
             eprintln!("replay file's ELF cannot be parsed by the harness");
             return 2;
         };
+        spec.file_name = case.get("file_name").and_then(|n| n.as_str()).map(|n| n.to_string());
         let mut ld = Loader::new("replay");
         let r = if c12 { check_c12(&mut ld, &spec) } else { check_c11(&mut ld, &spec) };
         return match r {
@@ -419,5 +443,5 @@ pub fn spec_from_file(file: &[u8], args: &str) -> Option<ElfSpec> {
             }
         }
     }
-    Some(ElfSpec { segs, secs, shstrndx: shstrndx as u16, got, stack_size, symbols, exit_value, phoff: phoff as u32, shoff: shoff as u32, file: file.to_vec(), args: args.to_string() })
+    Some(ElfSpec { segs, secs, shstrndx: shstrndx as u16, got, stack_size, symbols, exit_value, phoff: phoff as u32, shoff: shoff as u32, file: file.to_vec(), args: args.to_string(), file_name: None })
 }
